@@ -384,7 +384,7 @@ func streamUpload(g *core.G) {
 	n := g.N(400, 20000)
 	srcStates := []string{"F1", "F2", "F3", "M", "D0", "D1"}
 	dstStates := []string{"A", "A", "A", "F7", "D0", "D1"}
-	weird := []string{"../outside/sentinel", "sub/inner", "@ROOT@/outside/sentinel", ".", "..", "../src/a", "a/", "/etc/hostname"}
+	weird := []string{"/", "//", "../outside/sentinel", "sub/inner", "@ROOT@/outside/sentinel", ".", "..", "../src/a", "a/", "/etc/hostname"}
 	for i := 0; i < n; i++ {
 		op := r.Pick([]string{"copy", "move", "remove"})
 		kind := r.Pick([]string{"dsc", "changes"})
@@ -476,7 +476,7 @@ func init() {
 			"fingerprint:control.Changes.Copy", "fingerprint:control.Changes.Move", "fingerprint:control.Changes.Remove", "fingerprint:control.Changes.AbsFiles", "fingerprint:control.Changes.checkFiles",
 			"fingerprint:control.checkListedFilename", "fingerprint:internal.Copy"},
 		Streams: []core.Stream{{Name: "upload", Gen: streamUpload,
-			Domain: "uploads with 0-4 referenced files x {Copy, Move, Remove} x {.dsc, .changes}; a fault at one position (each referenced file or the control file itself) realised as a file-system state: source missing / an empty or non-empty directory (copy fails after the destination was created), destination name occupied by a file, an empty or a non-empty directory, destination missing or a regular file; listed names incl. '../x', 'a/b', absolute paths, '.', '..', trailing slash, the empty name (.changes line with two blanks), duplicates and the control file's own name; an older, much longer file of the same name already in the destination (1/10; contents compared byte for byte, the control file's too); run on a real temporary tree; observables: result, listing of both directories with contents, where the handle points, whether anything outside was touched; law-upload judges the same run against the property"}},
+			Domain: "uploads with 0-4 referenced files x {Copy, Move, Remove} x {.dsc, .changes}; a fault at one position (each referenced file or the control file itself) realised as a file-system state: source missing / an empty or non-empty directory (copy fails after the destination was created), destination name occupied by a file, an empty or a non-empty directory, destination missing or a regular file; listed names incl. '../x', 'a/b', absolute paths, '.', '..', '/', '//', trailing slash, the empty name (.changes line with two blanks), duplicates and the control file's own name; an older, much longer file of the same name already in the destination (1/10; contents compared byte for byte, the control file's too); run on a real temporary tree; observables: result, listing of both directories with contents, where the handle points, whether anything outside was touched; law-upload judges the same run against the property"}},
 		Impl: uploadImpl, TrustedBase: tb,
 		Readable: func(op string, a []string) string {
 			var parts []string
